@@ -26,8 +26,17 @@ impl Lexer {
                 self.nesting_depth = self.nesting_depth.saturating_sub(1);
                 self.add_token(TokenKind::RParen);
             }
-            '{' => self.add_token(TokenKind::LBrace),
-            '}' => self.add_token(TokenKind::RBrace),
+            '{' => {
+                self.brace_stack.push(self.nesting_depth);
+                self.nesting_depth = 0;
+                self.add_token(TokenKind::LBrace);
+            }
+            '}' => {
+                if let Some(outer) = self.brace_stack.pop() {
+                    self.nesting_depth = outer;
+                }
+                self.add_token(TokenKind::RBrace);
+            }
             '[' => {
                 self.nesting_depth += 1;
                 self.add_token(TokenKind::LBracket);
